@@ -46,7 +46,7 @@ type JwsSpec struct {
 	SignAlg  string // algorithm used to compute the signature ("" = Alg; "-" = empty signature)
 	Kid      string // loc | otherprov | garbage | ownerloc | noprefix
 	Nonce    string // fresh | reused | foreign | empty | absent | otherprov
-	URL      string // same | other | absent | nonstring
+	URL      string // same | other | absent | nonstring | case-id | case-path | case-scheme | case-host (request URL with the letter case of that part flipped)
 	Unprot   string // "" | kid | alg | nonce | extra | jwk
 	NSigs    int
 	Detached bool
@@ -58,15 +58,15 @@ type JwsSpec struct {
 }
 
 type Case struct {
-	Route   string // newAccount account keyChange newOrder order orders finalize authz challenge cert revoke
-	Prov    int    // provisioner in the URL: 0 | 1 | 2 (unknown name)
-	Req     int    // requester: 0..2 world accounts | 3 fresh deactivated | 4 unknown key | 5 fresh valid account
-	Own     int    // owner of the addressed resource: 0..2 | 3 non-existent id
-	AzOwn   int    // challenge route only: owner of the authorization id in the URL (-1 = Own)
-	Which   string // valid | pending
-	Payload string // valid | empty | emptyjson | garbage | deactivate | onlyexisting | forged (revoke: self-signed certificate with the victim's serial)
-	ProvSwap bool  // the provisioner named in the URL has been re-created under the same name with another id
-	J       JwsSpec
+	Route    string // newAccount account keyChange newOrder order orders finalize authz challenge cert revoke
+	Prov     int    // provisioner in the URL: 0 | 1 | 2 (unknown name)
+	Req      int    // requester: 0..2 world accounts | 3 fresh deactivated | 4 unknown key | 5 fresh valid account
+	Own      int    // owner of the addressed resource: 0..2 | 3 non-existent id
+	AzOwn    int    // challenge route only: owner of the authorization id in the URL (-1 = Own)
+	Which    string // valid | pending
+	Payload  string // valid | empty | emptyjson | garbage | deactivate | onlyexisting | forged (revoke: self-signed certificate with the victim's serial)
+	ProvSwap bool   // the provisioner named in the URL has been re-created under the same name with another id
+	J        JwsSpec
 }
 
 func defaultJ() JwsSpec {
@@ -77,7 +77,7 @@ func main() {
 	n := flag.Int("n", 1000, "number of generated cases")
 	out := flag.String("out", "", "output file")
 	replay := flag.String("replay", "", "file of lines carrying case=x… to re-run")
-	stage := flag.String("stage", "matrix", "matrix | shapes | routes | nonce | d15")
+	stage := flag.String("stage", "matrix", "matrix | shapes | routes | nonce | d15 | acctrace")
 	flag.Parse()
 	o, err := c.NewOut(*out)
 	if err != nil {
@@ -149,6 +149,10 @@ func main() {
 				w.d15(o)
 				continue
 			}
+			if strings.HasPrefix(l, "acctrace ") {
+				w.acctRace(o)
+				continue
+			}
 			if strings.HasPrefix(l, "route ") {
 				w.routes(o)
 				continue
@@ -184,6 +188,8 @@ func main() {
 		}
 	case "d15":
 		w.d15(o)
+	case "acctrace":
+		w.acctRace(o)
 	}
 	_ = context.Background
 }
